@@ -115,6 +115,35 @@ T = {
     change="Parser::peek_left: `.skip(lookbehind).find(not skipped)` instead of `.filter(not skipped).nth(lookbehind)` (skeleton and shipped copy)",
     needs="peek_left(n), n >= 2, in a predicate with skipped tokens among the nearest n tokens: a different alternative is taken after inserting trivia",
     caught="Kani leaf harness peek_left_matches_spec (bounded, <= 4 tokens) on the real text of Parser::peek_left fails in the skeleton units and the shipped front end"),
+ # ---- round 6 ------------------------------------------------------------------------------------
+ "m01": dict(prop="C01",
+    change="the code emitted for the return operator `&` closes the error node through output_cst_close(.., is_start = true), i.e. with close_root instead of close (src/backend/rust.rs)",
+    needs="`&` fires after at least one consumed token, a skipped token follows, and the calling rule ends without consuming: the error node swallows the trailing skipped tokens, the caller's extent ends before its child's, tokens are visited twice",
+    caught="Verus: precondition of Parser::close_root (the open-node stack is exactly the root) fails at the emitted `&` in rule_r of t02_return_cond (quick tier), and with it the rule's postcondition twf; tags C01, C02, C03"),
+ "m02": dict(prop="C02",
+    change="nodes opened with open_before are closed through parser.cst.data.close(..) directly, skipping close_error_node, also at the end of a left-recursive branch (src/backend/rust.rs output_cst_close)",
+    needs="a left-recursive branch that ends in a recovering construct which skipped a token: create_node_<rule> fires while its error-node child is still an open placeholder",
+    caught="Verus: precondition of CstData::close (the mark is the innermost open node, i.e. no pending error node above it) cannot be established at the direct call in every Pratt `rec` and every conditionally elided rule; tags C01, C02, C03 (and C12 through fe_regen)",
+    extra={"note": "first run took 19 min because every one of 193 violation lines triggered its own native search for a failing input; the falsifier is now run once per unit and for at most eight units per invocation (it only illustrates, it never decides): 104 s"}),
+ "m03": dict(prop="C03",
+    change="for a loop / optional whose body carries a predicate the emitted follow arm also lists FIRST(body): a token rejected by the predicate leaves the loop instead of being skipped (src/backend/rust.rs output_recovering_operation)",
+    needs="a predicate-guarded loop inside another repetition, the guarded token not in the inner loop's follow set, predicate false: the outer loop re-enters its body for ever",
+    caught="Verus: `decreases` of the outer loop in p09_pred_loop_in_loop",
+    extra={"first_run": "MISSED: no corpus grammar had a predicate-guarded loop inside a repetition; p09_pred_loop_in_loop added (grammar shape), nothing else changed"}),
+ "m06": dict(prop="C06",
+    change="LL1Validator::calc_follow_regex requests another fixpoint iteration only when the referenced rule is declared BEFORE the current one (`<` where `<=` is needed): what a self-reference adds to a rule's follow set never reaches the rule's own nullable tails (src/frontend/sema.rs)",
+    needs="a rule referring to itself with something behind the occurrence, a nullable tail (`Num [Unit]`), and a grammar written top-down: the optional's follow arm misses the operators, the sentence `n+n` draws a diagnostic on `+`",
+    caught="bounded first-error check (tool/viable.py) on x18_atom_nullable_tail: a sentence draws a diagnostic; with the failing input (bounded)",
+    extra={"first_run": "MISSED: no corpus grammar had a nullable tail behind the atom of a Pratt rule; x18_atom_nullable_tail added (grammar shape, in the units of the first-error check)"}),
+ "m08": dict(prop="C08",
+    change="a commit `~` inside a parenthesised group also ends the undoable region for what follows the group - decided with `any` over the branches of an alternation where `all` is needed (src/frontend/sema.rs calc_containment_regex)",
+    needs="`x: A [e (B ~ | F) #1] C / A e F D;`: the branch without `~` is taken, the action runs with the flag still set, the alternative is then abandoned",
+    caught="the grammar is one the unchanged tree REJECTS (E029); as corpus unit rj_action_after_partial_commit it is accepted by the changed tree and the precondition cb_committed of the action callback fails in rule_x (Verus), and the bounded stand-in finds input `a e f` on which the action runs while in_ordered_choice is set",
+    extra={"first_run": "MISSED: the two rj_* grammars did not have this shape; rj_action_after_partial_commit added, and the native harness now also reports an action that runs while the choice flag is set"}),
+ "m12": dict(prop="C12",
+    change="GeneralCheck::check_node_creation unwraps the operand of `[..]`, `*`, `+` (`cannot be empty`) instead of `if let` (src/frontend/sema.rs)",
+    needs="a grammar text with `[` not followed by a regex (e.g. `a:[`): the resilient parser closes an Optional node without operand, the pass panics",
+    caught="bounded front-end stand-in (fecheck): panics on prefixes / deletions of the seed grammars that leave an empty `[ ]`; with the failing texts (bounded)"),
 }
 
 
